@@ -916,6 +916,16 @@ def native_spawn_refused(rp, watchdog_ms=10000):
     return {'cmd': cmd, 'out': out, 'hung': out.startswith('ok hung'), 'returned_ms': None, 'ok': out.startswith('ok'), 'refused': refused or out.startswith('ok hung')}
 
 
+def native_backlog(rp, watchdog_ms=22000):
+    """the writer thread is held up (not dead) for 11.5 s from its second loop visit on, while the poller keeps reporting once a second;
+    the poller then dies (panic at its 11th visit, ~10 s in).  When the writer comes back it finds the backlog AND main's ThreadAbort in
+    its mailbox: the daemon must be gone shortly after (deadline: 10 s after the writer resumes)"""
+    cmd = 'threads %d 11 1 %d 0 0 0 %d 2 11500' % (SITES[('poller', 'loop')], watchdog_ms, SITES[('writer', 'loop')])
+    out = rp.ask(cmd)
+    m = re.search(r'returned_ms=(\d+)', out)
+    return {'cmd': cmd, 'out': out, 'hung': out.startswith('ok hung'), 'returned_ms': int(m.group(1)) if m else None, 'ok': out.startswith('ok')}
+
+
 def native_fault(rp, who, where, nth, panic, watchdog_ms=10000, notify_delay_ms=0, chrony_answers=0):
     """chrony_answers > 0: a stand-in chronyd answers that many tracking requests and then disappears (a chronyd restart): the polls
     after that are missed polls inside the grace period"""
@@ -950,6 +960,11 @@ def native_only(ck, why, tier):
             ck.violation('daemon-lingers', 'the %s thread %s (%s, visit %d%s): the real thread_manager::run had not returned 10000 ms later - the daemon lingers with part of its pipeline dead (the step relations of this tree are outside the encodable fragment: %s)'
                          % (who, 'panics' if panic else 'returns', 'at start-up' if where == 'start' else 'at the top of its loop', nth, ((', held %d ms before its mailbox closes' % delay) if delay else '') + ((', chronyd answered %d polls and then went away' % answers) if answers else ''), why[:160]), {'cmd': nat['cmd'], 'native': nat['out']})
             break
+    if not ck.violations:
+        nat = native_backlog(rp)
+        runs.append(nat)
+        if nat['hung']:
+            ck.violation('daemon-lingers', 'the writer thread is held up for 11.5 s while the poller keeps reporting, then the poller dies: %d ms after the start the real thread_manager::run had still not returned - the abort message did not reach the writer behind (or because of) its backlog and the daemon lingers' % 22000, {'cmd': nat['cmd'], 'native': nat['out']})
     if not ck.violations:
         nat = native_spawn_refused(rp)
         runs.append(nat)
@@ -1092,6 +1107,11 @@ def run_check(tier, seed):
                 break
             if not nat['ok']:
                 ck.inconclusive.append('native thread run failed: ' + nat['out'][:100])
+    if not ck.violations:
+        nat = native_backlog(rp)
+        native_runs.append(nat)
+        if nat['hung']:
+            ck.violation('daemon-lingers', 'the writer thread is held up for 11.5 s while the poller keeps reporting, then the poller dies: %d ms after the start the real thread_manager::run had still not returned - the abort message did not reach the writer behind (or because of) its backlog and the daemon lingers' % 22000, {'cmd': nat['cmd'], 'native': nat['out']})
     if not ck.violations:
         nat = native_spawn_refused(rp, DEADLINE_MS)
         native_runs.append(nat)
